@@ -48,6 +48,8 @@ type job struct {
 	checks  int // -rapid.checks per shard
 	timeout time.Duration
 	env     []string
+	pkg     string        // test package of this job when it differs from the property's (e.g. "e2")
+	race    bool          // build this job's package with -race
 	fuzz    string        // native fuzz target (thorough only); run is ignored
 	fuzzFor time.Duration // fuzz time
 	steps   int           // -rapid.steps (0 = default)
@@ -77,6 +79,7 @@ type ctx struct {
 	scratch string
 	env     []string
 	bin     string
+	bins    map[string]string
 	start   time.Time
 	out     string // /verif/out/<ID>
 }
@@ -181,6 +184,26 @@ func main() {
 		fmt.Printf("%s", out)
 		die(2, "INCONCLUSIVE property=%s: building the check against /repo failed: %v", id, err)
 	}
+	// jobs may live in another test package (shared engines): build those binaries too.
+	c.bins = map[string]string{p.pkg: c.bin}
+	for _, tr := range []tier{p.quick, p.thorough} {
+		for _, j := range tr.jobs {
+			if j.pkg == "" || c.bins[j.pkg] != "" {
+				continue
+			}
+			bin := filepath.Join(scratchDir, id+"-"+j.pkg+".test")
+			a2 := []string{"test", "-c", "-tags", "verif", "-o", bin}
+			if j.race {
+				a2 = append(a2, "-race")
+			}
+			a2 = append(a2, "./"+j.pkg)
+			if out, err := runCmd(filepath.Join(verifRoot, "go"), c.env, 10*time.Minute, "go", a2...); err != nil {
+				fmt.Printf("%s", out)
+				die(2, "INCONCLUSIVE property=%s: building the check against /repo failed: %v", id, err)
+			}
+			c.bins[j.pkg] = bin
+		}
+	}
 	if p.prep != nil {
 		if err := p.prep(c); err != nil {
 			die(2, "INCONCLUSIVE property=%s: preparation failed: %v", id, err)
@@ -230,7 +253,11 @@ func loadFindings() []finding {
 // replayOne runs one replay file in a fresh process. ok = property holds.
 func (c *ctx) replayOne(path string, timeout time.Duration) (bool, string) {
 	env := append(append([]string{}, c.env...), "VERIF_REPLAY="+path, "VERIF_OUT=", "VERIF_STATS=")
-	out, err := runCmd(c.scratch, env, timeout, c.bin, "-test.run", "^TestReplay$", "-test.count=1", "-test.timeout=0")
+	bin := c.bin
+	if rp, err := ev.LoadReplay(path); err == nil && rp.Pkg != "" && c.bins[rp.Pkg] != "" {
+		bin = c.bins[rp.Pkg]
+	}
+	out, err := runCmd(c.scratch, env, timeout, bin, "-test.run", "^TestReplay$", "-test.count=1", "-test.timeout=0")
 	if err == nil {
 		return true, ""
 	}
@@ -501,7 +528,7 @@ func (c *ctx) runShard(t shardResult, idx int) shardResult {
 	}
 	env := append(append([]string{}, c.env...), "VERIF_OUT="+dir, "VERIF_STATS="+stats,
 		"VERIF_SHARD="+strconv.Itoa(t.shard), "VERIF_NSHARDS="+strconv.Itoa(max(1, j.shards)),
-		"VERIF_SHARD_SEED="+strconv.FormatInt(seed, 10))
+		"VERIF_SHARD_SEED="+strconv.FormatInt(seed, 10), "VERIF_JOB_PKG="+j.pkg)
 	env = append(env, j.env...)
 	timeout := j.timeout
 	if timeout == 0 {
@@ -520,7 +547,11 @@ func (c *ctx) runShard(t shardResult, idx int) shardResult {
 			args = append(args, "-rapid.steps="+strconv.Itoa(j.steps))
 		}
 	}
-	out, err := runCmd(dir, env, timeout, c.bin, args...)
+	bin := c.bin
+	if j.pkg != "" {
+		bin = c.bins[j.pkg]
+	}
+	out, err := runCmd(dir, env, timeout, bin, args...)
 	t.out, t.err = out, err
 	if err != nil && strings.HasPrefix(err.Error(), "timeout") {
 		t.timeout = true
